@@ -76,6 +76,14 @@ def gen(seed, tier):
         else:
             c["regs"] = [[r.randrange(n), r.random() < 0.5] for _ in range(r.randrange(0, 8))]
         cases.append(c)
+    # histories through a tracker whose best fitness passes through zero, repeats and ties (the best-only log must hold the strict
+    # improvements and nothing else), both directions
+    for _ in range(120 if big else 40):
+        n = r.randrange(2, 7)
+        table = [[sc.jq(r.choice([sc.Fraction(-2), sc.Fraction(-1), sc.Fraction(0), sc.Fraction(0), sc.Fraction(1), sc.Fraction(5, 2)]))] for _ in range(n)]
+        order = [r.randrange(n) for _ in range(r.randrange(2, 9))]
+        cases.append({"op": "csv", "table": table, "problem": {"kind": "so", "min": r.random() < 0.5}, "only_best": r.random() < 0.7, "extras": None, "via": "tracker",
+                      "batches": [order[i:i + 2] for i in range(0, len(order), 2)]})
     return cases
 
 
@@ -99,6 +107,17 @@ def run(tier, seed, replay=None):
             if any(b < a for a, b in zip(times, times[1:])):
                 chk.violation("oracle", f"[CSV recorder] Execution Time column decreases: {times}", {"component": "CSV recorder", "driver": "csvrec", "case": c, "observed": times}, True)
                 break
+    if outs:
+        # the improvement flags a single-objective tracker hands to the recorder, against the fitness table alone
+        fl = [(c, o) for c, o in zip(cases, outs) if c["via"] == "tracker" and c["problem"]["kind"] == "so" and "ok" in o]
+        if fl:
+            terms = [f"K20F {sc.c_table(list(enumerate(c['table'])))} {cbool(c['problem']['min'])} " + clist(f"({cN(i)}, {cbool(f)})" for i, f in o["ok"]["regs"]) for c, o in fl]
+            _, badf = core.run_cases("C20", IMPORTS, terms, run_fn="run_c20f", chunk=200)
+            for j in badf[:2]:
+                c, o = fl[j]
+                chk.violation("oracle", "[CSV recorder behind a tracker] the individuals flagged as new best are not exactly the first one and the strict improvements, so the best-only log "
+                              f"holds other rows: fitness table {c['table']} minimise={c['problem']['min']} registrations (individual, flagged) {o['ok']['regs']}",
+                              {"component": "improvement flags", "driver": "csvrec", "case": c, "observed": o["ok"]["regs"]}, True)
     if replay and outs:
         print("replayed:", describe(cases[0], outs[0]))
         print("correspondence", "FAILS" if corr else "ok", "| contract", "FAILS" if orac else "holds")
